@@ -75,6 +75,13 @@ MUTANTS = [
      "            # is pseudoknot?\n            if (k < m < l) or (m < k < n < l):\n                graph[i].add(j)\n                graph[j].add(i)\n\n        # return all"),
     ("m_c02_brackets", "C02", C, '        brackets = ["()", "[]", "{}", "<>"] + [', '        brackets = ["()", "{}", "[]", "<>"] + ['),
     ("m_c02_len_weight", "C02", C, "                    terms.append(var * length)", "                    terms.append(var)"),
+    ("m_c02_sticky_failure", "C02", C,
+     ["@dataclass\nclass BpSeq:\n",
+      "        # if PuLP solvers are not installed, use FCFS\n        if solver is None:\n            return self.fcfs\n",
+      "        except pulp.PulpSolverError:\n"],
+     ["_SOLVER_BROKEN = []\n\n\n@dataclass\nclass BpSeq:\n",
+      "        # if PuLP solvers are not installed (or failed before), use FCFS\n        if solver is None or _SOLVER_BROKEN:\n            return self.fcfs\n",
+      "        except pulp.PulpSolverError:\n            _SOLVER_BROKEN.append(True)\n"]),
     ("m_c02_twodigit", "C02", C, '                i, order = map(int, name.split("_")[1:])',
      "                i, order = int(name[2]), int(name[-1])"),
     ("m_c13_twodigit_fcfs", "C13", C, "            order = next(filter(lambda i: available[i] is True, range(len(available))))\n            orders[i] = order\n\n        return self.__make_dot_bracket(regions, orders)",
